@@ -11,7 +11,7 @@
    satisfies the section hypotheses of the theorems; a request, response or attempt that the real
    codec does not bring back unchanged therefore shows up as a disagreement. *)
 From Coercion.Base Require Import Plan.
-From Coercion.Store Require Import Tree Rows Spec SqliteModel.
+From Coercion.Store Require Import Tree Rows Spec SqliteModel CosmosModel.
 
 Definition enc_req0 (b : blob) : option code := if bl_enc b then Some (CReq b) else None.
 Definition dec_req0 (_ : tok) (c : code) : option blob := match c with CReq b => Some b | _ => None end.
@@ -22,11 +22,13 @@ Definition dec_att0 (_ : tok) (c : code) : option attempt := match c with CAtt a
 Inductive cop :=
 | CCreate (p : plan)
 | CKilledCreate (p : plan)        (* Create in a child process that was killed at a random instant *)
+| CCreateStage (n : nat) (p : plan)   (* cosmosdb Create with an injected fault: 0 = plan batch fails, 1 = search batch fails *)
+| CDeleteStage (n : nat) (id : uid)   (* cosmosdb Delete with an injected fault: 0 = plan batch fails *)
 | CUpdatePlan (id : uid) (rs : reason) (st : state) (sub : Z)
-| CUpdateBlock (id : uid) (st : state)
-| CUpdateChecks (id : uid) (st : state)
-| CUpdateSequence (id : uid) (st : state)
-| CUpdateAction (id : uid) (st : state) (atts : list attempt)
+| CUpdateBlock (pid id : uid) (st : state)
+| CUpdateChecks (pid id : uid) (st : state)
+| CUpdateSequence (pid id : uid) (st : state)
+| CUpdateAction (pid id : uid) (st : state) (atts : list attempt)
 | CDelete (id : uid).
 
 Record obs := {
@@ -37,23 +39,50 @@ Record obs := {
 Record case := {
   k_backend : nat;                          (* 0 = sqlite, 1 = cosmosdb *)
   k_table : list plan;
-  k_steps : list (cop * obs) }.
+  k_steps : list (cop * obs);
+  k_items : list (plan * list row) }.       (* cosmosdb: a plan and the items VerifPlanItems emitted for it (codes blanked) *)
 
-Record vault := { v_step : op -> M; v_read : uid -> db -> option spln }.
+(* an operation, possibly with an injected fault *)
+Inductive xop := XOp (o : op) | XCreateStage (n : nat) (p : spln) | XDeleteStage (n : nat) (id : uid).
+
+Record vault := {
+  v_st : Type;
+  v_init : v_st;
+  v_step : xop -> v_st -> v_st * bool;
+  v_read : uid -> v_st -> option spln;
+  v_count : kind -> uid -> v_st -> nat }.
 
 Definition sqlite_vault : vault :=
-  {| v_step := SqliteModel.step enc_req0 dec_req0 enc_att0 dec_att0;
-     v_read := SqliteModel.read dec_req0 dec_att0 |}.
+  {| v_st := db; v_init := [];
+     v_step := fun x => match x with
+                        | XOp o => SqliteModel.step enc_req0 dec_req0 enc_att0 dec_att0 o
+                        | XCreateStage _ p => SqliteModel.create enc_req0 enc_att0 p
+                        | XDeleteStage _ id => SqliteModel.delete dec_req0 dec_att0 id
+                        end;
+     v_read := SqliteModel.read dec_req0 dec_att0;
+     v_count := count_rows |}.
 
-Definition to_op (c : cop) : option op :=
+Definition cosmos_vault : vault :=
+  {| v_st := cdb; v_init := ([], []);
+     v_step := fun x => match x with
+                        | XOp o => CosmosModel.step enc_req0 dec_req0 enc_att0 dec_att0 o
+                        | XCreateStage n p => CosmosModel.create_stage enc_req0 dec_req0 enc_att0 dec_att0 n p
+                        | XDeleteStage n id => CosmosModel.delete_stage dec_req0 dec_att0 n id
+                        end;
+     v_read := CosmosModel.read dec_req0 dec_att0;
+     v_count := fun k pid c => count_rows k pid (fst c) |}.
+
+Definition to_op (c : cop) : option xop :=
   match c with
-  | CCreate p | CKilledCreate p => option_map OCreate (of_plan p)
-  | CUpdatePlan id rs st sub => Some (OUpdatePlan id rs st sub)
-  | CUpdateBlock id st => Some (OUpdateBlock id st)
-  | CUpdateChecks id st => Some (OUpdateChecks id st)
-  | CUpdateSequence id st => Some (OUpdateSequence id st)
-  | CUpdateAction id st atts => Some (OUpdateAction id st atts)
-  | CDelete id => Some (ODelete id)
+  | CCreate p | CKilledCreate p => option_map (fun q => XOp (OCreate q)) (of_plan p)
+  | CCreateStage n p => option_map (XCreateStage n) (of_plan p)
+  | CDeleteStage n id => Some (XDeleteStage n id)
+  | CUpdatePlan id rs st sub => Some (XOp (OUpdatePlan id rs st sub))
+  | CUpdateBlock pid id st => Some (XOp (OUpdateBlock pid id st))
+  | CUpdateChecks pid id st => Some (XOp (OUpdateChecks pid id st))
+  | CUpdateSequence pid id st => Some (XOp (OUpdateSequence pid id st))
+  | CUpdateAction pid id st atts => Some (XOp (OUpdateAction pid id st atts))
+  | CDelete id => Some (XOp (ODelete id))
   end.
 
 (* ---- where two plans differ (diagnosis only; the verdict is spln_eqb) ---- *)
@@ -90,8 +119,8 @@ Fixpoint acts_diff (a b : list sact) : nat :=
   end.
 
 (* ---- one observation against a database of the model ---- *)
-(* 0 = agrees; otherwise [kind; position; detail; detail] *)
-Fixpoint check_reads (v : vault) (tbl : list plan) (d : db) (j : nat) (l : list (uid * option nat)) : list nat :=
+(* [] = agrees; otherwise [kind; position; detail; detail] *)
+Fixpoint check_reads (v : vault) (tbl : list plan) (d : v_st v) (j : nat) (l : list (uid * option nat)) : list nat :=
   match l with
   | [] => []
   | (id, o) :: r =>
@@ -114,17 +143,17 @@ Fixpoint check_reads (v : vault) (tbl : list plan) (d : db) (j : nat) (l : list 
 
 Definition kinds : list kind := [KPlan; KBlock; KChecks; KSeq; KAction].
 
-Fixpoint check_counts (d : db) (j : nat) (l : list (uid * list nat)) : list nat :=
+Fixpoint check_counts (v : vault) (d : v_st v) (j : nat) (l : list (uid * list nat)) : list nat :=
   match l with
   | [] => []
   | (pid, ns) :: r =>
-    if list_eqb Nat.eqb (map (fun k => count_rows k pid d) kinds) ns then check_counts d (S j) r
+    if list_eqb Nat.eqb (map (fun k => v_count v k pid d) kinds) ns then check_counts v d (S j) r
     else [31; j]
   end.
 
-Definition check_obs (v : vault) (tbl : list plan) (d : db) (ob : obs) : list nat :=
+Definition check_obs (v : vault) (tbl : list plan) (d : v_st v) (ob : obs) : list nat :=
   match check_reads v tbl d 0 (o_reads ob) with
-  | [] => check_counts d 0 (o_counts ob)
+  | [] => check_counts v d 0 (o_counts ob)
   | bad => bad
   end.
 
@@ -132,7 +161,7 @@ Definition ok_matches (o : option bool) (b : bool) : bool :=
   match o with None => true | Some x => Bool.eqb x b end.
 
 (* [0] = every observation agrees; [n; i; ...] = first disagreement, at step i *)
-Fixpoint check_steps (v : vault) (tbl : list plan) (i : nat) (d : db) (steps : list (cop * obs)) : list nat :=
+Fixpoint check_steps (v : vault) (tbl : list plan) (i : nat) (d : v_st v) (steps : list (cop * obs)) : list nat :=
   match steps with
   | [] => [0]
   | (c, ob) :: r =>
@@ -161,13 +190,92 @@ Fixpoint check_steps (v : vault) (tbl : list plan) (i : nat) (d : db) (steps : l
     end
   end.
 
+(* ---- cosmosdb: the items planToItems emits (order of emission, every column, pos; codes blanked) ---- *)
+Definition blank : code := CReq (Build_blob true true 0 0).
+Definition blank_row (r : row) : row :=
+  match r with
+  | RAction x =>
+    RAction {| ar_id := ar_id x; ar_key := ar_key x; ar_plan := ar_plan x; ar_name := ar_name x;
+               ar_descr := ar_descr x; ar_pos := ar_pos x; ar_plugin := ar_plugin x;
+               ar_timeout := ar_timeout x; ar_retries := ar_retries x; ar_req := blank;
+               ar_atts := map (fun _ => blank) (ar_atts x);
+               ar_status := ar_status x; ar_start := ar_start x; ar_end := ar_end x |}
+  | _ => r
+  end.
+
+Definition ouid_eqb := opt_eqb uid_eqb.
+Definition uids_eqb := list_eqb uid_eqb.
+
+Definition row_eqb_blank (a b : row) : bool :=
+  match blank_row a, blank_row b with
+  | RPlan x, RPlan y =>
+    uid_eqb (pr_id x) (pr_id y) && uid_eqb (pr_group x) (pr_group y) && tok_eqb (pr_name x) (pr_name y)
+    && tok_eqb (pr_descr x) (pr_descr y) && blob_eqb (pr_meta x) (pr_meta y)
+    && ouid_eqb (pr_byp x) (pr_byp y) && ouid_eqb (pr_pre x) (pr_pre y) && ouid_eqb (pr_post x) (pr_post y)
+    && ouid_eqb (pr_cont x) (pr_cont y) && ouid_eqb (pr_def x) (pr_def y) && uids_eqb (pr_blocks x) (pr_blocks y)
+    && status_eqb (pr_status x) (pr_status y) && Z.eqb (pr_start x) (pr_start y) && Z.eqb (pr_end x) (pr_end y)
+    && Z.eqb (pr_submit x) (pr_submit y) && reason_eqb (pr_reason x) (pr_reason y)
+  | RBlock x, RBlock y =>
+    uid_eqb (br_id x) (br_id y) && uid_eqb (br_key x) (br_key y) && uid_eqb (br_plan x) (br_plan y)
+    && tok_eqb (br_name x) (br_name y) && tok_eqb (br_descr x) (br_descr y) && Nat.eqb (br_pos x) (br_pos y)
+    && Z.eqb (br_entr x) (br_entr y) && Z.eqb (br_exit x) (br_exit y)
+    && ouid_eqb (br_byp x) (br_byp y) && ouid_eqb (br_pre x) (br_pre y) && ouid_eqb (br_post x) (br_post y)
+    && ouid_eqb (br_cont x) (br_cont y) && ouid_eqb (br_def x) (br_def y) && uids_eqb (br_seqs x) (br_seqs y)
+    && Z.eqb (br_conc x) (br_conc y) && Z.eqb (br_tol x) (br_tol y)
+    && status_eqb (br_status x) (br_status y) && Z.eqb (br_start x) (br_start y) && Z.eqb (br_end x) (br_end y)
+  | RChecks x, RChecks y =>
+    uid_eqb (cr_id x) (cr_id y) && uid_eqb (cr_key x) (cr_key y) && uid_eqb (cr_plan x) (cr_plan y)
+    && uids_eqb (cr_actions x) (cr_actions y) && Z.eqb (cr_delay x) (cr_delay y)
+    && status_eqb (cr_status x) (cr_status y) && Z.eqb (cr_start x) (cr_start y) && Z.eqb (cr_end x) (cr_end y)
+  | RSeq x, RSeq y =>
+    uid_eqb (sr_id x) (sr_id y) && uid_eqb (sr_key x) (sr_key y) && uid_eqb (sr_plan x) (sr_plan y)
+    && tok_eqb (sr_name x) (sr_name y) && tok_eqb (sr_descr x) (sr_descr y) && Nat.eqb (sr_pos x) (sr_pos y)
+    && uids_eqb (sr_actions x) (sr_actions y)
+    && status_eqb (sr_status x) (sr_status y) && Z.eqb (sr_start x) (sr_start y) && Z.eqb (sr_end x) (sr_end y)
+  | RAction x, RAction y =>
+    uid_eqb (ar_id x) (ar_id y) && uid_eqb (ar_key x) (ar_key y) && uid_eqb (ar_plan x) (ar_plan y)
+    && tok_eqb (ar_name x) (ar_name y) && tok_eqb (ar_descr x) (ar_descr y) && Nat.eqb (ar_pos x) (ar_pos y)
+    && tok_eqb (ar_plugin x) (ar_plugin y) && Z.eqb (ar_timeout x) (ar_timeout y) && Z.eqb (ar_retries x) (ar_retries y)
+    && Nat.eqb (length (ar_atts x)) (length (ar_atts y))
+    && status_eqb (ar_status x) (ar_status y) && Z.eqb (ar_start x) (ar_start y) && Z.eqb (ar_end x) (ar_end y)
+  | _, _ => false
+  end.
+
+Fixpoint first_row_diff (j : nat) (a b : list row) : option nat :=
+  match a, b with
+  | [], [] => None
+  | x :: a', y :: b' => if row_eqb_blank x y then first_row_diff (S j) a' b' else Some j
+  | _, _ => Some j
+  end.
+
+Fixpoint check_items (i : nat) (l : list (plan * list row)) : list nat :=
+  match l with
+  | [] => []
+  | (p, items) :: r =>
+    match of_plan p with
+    | None => [9; i]
+    | Some q =>
+      match CosmosModel.planToItems enc_req0 enc_att0 q with
+      | None => [42; i]
+      | Some m => match first_row_diff 0 m items with
+                  | None => check_items (S i) r
+                  | Some j => [41; i; j]
+                  end
+      end
+    end
+  end.
+
 Definition vault_of (n : nat) : option vault :=
-  match n with 0 => Some sqlite_vault | _ => None end.
+  match n with 0 => Some sqlite_vault | 1 => Some cosmos_vault | _ => None end.
 
 Definition check_case (c : case) : list nat :=
   match vault_of (k_backend c) with
   | None => [8]
-  | Some v => check_steps v (k_table c) 0 [] (k_steps c)
+  | Some v =>
+    match check_items 0 (k_items c) with
+    | [] => check_steps v (k_table c) 0 (v_init v) (k_steps c)
+    | bad => bad
+    end
   end.
 
 Definition case_ok (c : case) : bool :=
